@@ -9,6 +9,7 @@ Independent oracles written from DESIGN.md section 2 and the property statements
   ledger `ext[u] = ref[u] - indeg[u]`;
 * `build(b, t, names)`: construct the function with truth table `t` bottom-up through `find_or_add`.
 """
+import random
 import functools
 import itertools
 import os
@@ -404,3 +405,55 @@ def fork_and_discard(b, names, rnd):
     # discard the copy without tripping its shutdown assertion
     c._ref = {k: 0 for k in c._ref}
     c._ref[1] = 1
+
+
+def shift_history(c, res, query, names=('a', 'b', 'c', 'd'), spares=('s1', 's2', 's3')):
+    """A few held functions over `names` in a manager that also declares unused spare variables; `query(m, b, names, held, rnd)` (which
+    checks one operation against its oracle and raises Viol) alternates with changes that keep every held function but shift what a level
+    or a node number means: a spare variable is undeclared (the levels below move up, node numbers stay) or declared again, two levels are
+    swapped, a held function is released, collected and replaced by a new one (its node numbers are re-used). No collection happens
+    between a query and an undeclaration. Whatever an operation remembered under a level or node number that meanwhile means something
+    else is exposed by the next queries."""
+    import dd.autoref as A
+    rnd = random.Random(c['seed'])
+    names, spares = list(names), list(spares)
+    order = names + spares
+    rnd.shuffle(order)
+    m = A.BDD({nm: k for k, nm in enumerate(order)})
+    b = m._bdd
+    held = []
+
+    def new_function():
+        sub = rnd.sample(names, rnd.randint(2, len(names)))
+        u = build(b, rnd.getrandbits(1 << len(sub)), sub)
+        b.incref(u)
+        held.append((u, den(b, u, names)))
+    for _ in range(rnd.randint(1, 3)):
+        new_function()
+    for _ in range(c['steps']):
+        x = rnd.random()
+        if x < .6:
+            query(m, b, names, held, rnd)
+        elif x < .76:
+            dec = [v for v in spares if v in b.vars]
+            if dec:
+                b.undeclare_vars(rnd.choice(dec))
+        elif x < .86:
+            free = [v for v in spares if v not in b.vars]
+            if free:
+                b.add_var(rnd.choice(free))
+        elif x < .93:
+            u, _ = held.pop(rnd.randrange(len(held)))
+            b.decref(u)
+            b.collect_garbage()
+            new_function()
+        else:
+            i = rnd.randrange(len(b.vars) - 1)
+            b.swap(i, i + 1)
+        for u, t in held:
+            got = den(b, u, names)
+            require(got == t, 'held-denotation', lambda: f'held {u} denotes {got}, expected {t} (order {dict(b.vars)})')
+    for u, _ in held:
+        b.decref(u)
+    wf(b)
+    return m
